@@ -26,6 +26,9 @@ def run(rep):
         if nv == 0: rep.holds('C05.2 tree: Err iff first fault reached is unrecoverable, divergence flagged, draw created before the fault, no site beyond the fault, no panic - maxdepth=%d (%d paths)' % (Dm, len(outs)), time.time() - t0)
     register_draw(rep, mir, L)
     init_state(rep, mir, L)
+    from ..driver import parts
+    from .c07 import init_search
+    parts(rep, [lambda: init_search(rep, mir, L, prefix='C05.3')])
 
 # ------------------------------------------------------------------------------------------------
 def leapfrog_mapping(rep, mir, L):
